@@ -599,7 +599,7 @@ func (st *Store) Exec(op Op, last bool) {
 			puts = o
 		}
 		for i, p := range puts {
-			st.put(op.Mode, root, p.Addr, p.Data, op, i == len(puts)-1)
+			st.put(op.Mode, root, p.Addr, p.Data, op, last && i == len(puts)-1)
 		}
 	case "cpin", "cunpin", "rm":
 		mode := map[string]storage.ModeSet{"cpin": storage.ModeSetPin, "cunpin": storage.ModeSetUnpin, "rm": storage.ModeSetRemove}[op.K]
@@ -608,7 +608,7 @@ func (st *Store) Exec(op Op, last bool) {
 		trig := st.DB.VerifGCTriggered()
 		ec := storeErr(err)
 		st.record(fmt.Sprintf("XSet %d %d NoRoot %d", t, int(mode), op.A), fmt.Sprintf("YSet %d %s", ec, hx.CoqBool(trig)),
-			StepInfo{Op: op, Kind: "set", Ref: op.A, Err: ec}, last || op.K == "rm")
+			StepInfo{Op: op, Kind: "set", Ref: op.A, Err: ec}, last)
 	case "pin":
 		t := st.tick()
 		err := st.Svc.CreatePin(ctx, st.addr(op.A), !op.NoTrav)
